@@ -68,7 +68,7 @@ def run(ctx):
     except TM.Refuse as e:
         ctx.obligation("translate_machines", False, f"translator refused: {e}")
         tr_ok = False
-    ok, out = ctx.build(["proofs/FilterMachine.vo", "model/FstCompose.vo", "model/EpsSpec.vo"]) if tr_ok else (False, "translator")
+    ok, out = ctx.build(["proofs/FilterMachine.vo", "proofs/ProductProofs.vo", "proofs/FstOpsProofs.vo", "model/FstCompose.vo", "model/EpsSpec.vo"]) if tr_ok else (False, "translator")
     if ok:
         ctx.prove("props/C10.v")
     else:
